@@ -36,7 +36,7 @@ def mmKey : String := "pairing_mismatches"
 
 /-- keys of `pairing_mismatches` as bytes (ASCII keys: `(a:30)->(c:12)`) -/
 def keyBytes (k : String) : Bytes := k.toList.map fun c => UInt8.ofNat c.toNat
-def keyStr (b : Bytes) : String := String.mk (b.map fun x => Char.ofNat x.toNat)
+def keyStr (b : Bytes) : String := String.ofList (b.map fun x => Char.ofNat x.toNat)
 
 def annGet (a : Ann) (key : String) : Option (List (String × Int)) := (a.find? (·.1 == key)).map (·.2)
 
